@@ -369,8 +369,8 @@ def run(tier: str, seed: int):
         g, ds, txt = U.universe(tier, seed, U.EXT, quick_nodes=4, quick_limit=3500)
     else:
         g, ds, txt = U.universe(tier, seed, U.EXT, thorough_nodes=4)
-        ds += U.random_descrs(seed, U.EXT, 5, 12000) + U.random_descrs(seed, U.EXT, 6, 8000) + U.random_descrs(seed, U.EXT, 7, 4000)
-        txt += '; 12000/8000/4000 seeded random 5/6/7-node trees'
+        ds += U.random_descrs(seed, U.EXT, 5, 5000) + U.random_descrs(seed, U.EXT, 6, 3000) + U.random_descrs(seed, U.EXT, 7, 1500)
+        txt += '; 5000/3000/1500 seeded random 5/6/7-node trees'
     gn = NumGen(U.EXT, seed=seed)
     gs = NumGen(U.EXT, seed=seed, strings=True)
     for i, d in enumerate(ds):
